@@ -253,6 +253,14 @@ def build_collection(I: Interp, n, args, kwargs, fr: Frame, node=None):
     src = args[0]
     if n == "tuple" and isinstance(src, PTuple):
         return src
+    if n in ("list", "tuple") and isinstance(src, PIter) and src.kind in ("items", "keys", "values"):
+        # list(d.items()) etc.: a snapshot of the mapping at this moment, usable for iteration
+        d = src.a[0]
+        ty = T.strip_opt(d.ty)
+        I.assume_dict_wf(SV(d.t, ty if ty.k in ("dict", "set") else T.DICT()))
+        r = smt.rid(d.t)
+        return PIter("snapshot", src.kind, z3.Select(st.arr("dkeys"), r), z3.Select(st.arr("dget"), r),
+                     smt.simp(z3.Select(st.arr("dsz"), r)), ty)
     seq = to_seq(I, src)
     if seq.concrete is not None:
         if n == "list":
